@@ -437,6 +437,19 @@ def run_case(ctx, case):
 
     for op in case["seq"]:
         kind = op["op"]
+        if op.get("rescale_copy"):
+            # the user works on a data set obtained from one of the getters (their copy): rescales it and reverts it.  The scaling fixed at learning time is the
+            # classifier's own: what follows must place new samples exactly as before (missed seed C19_b: the factor array shared with the returned copies updated in place)
+            getter = [cobj.get_learning_data, cobj.get_testing_data, cobj.get_omitted_data][int(op["rescale_copy"]) % 3]
+            try:
+                with capture():
+                    mine = getter()
+                    if not mine.is_empty():
+                        mine.scale_factor(2.0)
+                        mine.scale_range((0.0, 1.0))
+                        mine.revert_scaling()
+            except Exception:  # noqa  (what the user's own copy does is not the classifier's business; 1-D sets raise in same_scaling: a recorded finding of C18)
+                pass
         if kind in ("call", "test"):
             Q, lab, inside = make_queries(op, case, X, y, centres, lo, hi)
         if kind == "call":
@@ -581,6 +594,8 @@ def gen_case(rng, quick, allow_other=True):
                        "qseed": rng.randrange(2 ** 31)})
         if kind == "test":
             op["print"] = rng.random() < 0.25
+        if kind in ("call", "test") and rng.random() < 0.3:
+            op["rescale_copy"] = rng.randint(1, 3)
         seq.append(op)
     return {"kind": "random", "seed": rng.randrange(2 ** 31), "np_seed": rng.randrange(2 ** 31), "d": d, "K": K,
             "n": [rng.randint(12, 30) for _ in range(K)], "sep": rng.choice(["separated", "overlap"]), "unl": rng.random() < 0.35,
@@ -599,6 +614,8 @@ def directed():
          {"op": "test", "where": "out", "m": 4, "unl": False, "qseed": 5, "print": False}, {"op": "call", "where": "in", "m": 6, "unl": False, "qseed": 6},
          {"op": "call_learning"}],
         [{"op": "test", "where": "in", "m": 10, "unl": True, "qseed": 26, "print": True}, {"op": "evaluate"}],
+        [{"op": "call", "where": "in", "m": 8, "unl": False, "qseed": 27, "rescale_copy": 1}, {"op": "test", "where": "part", "m": 8, "unl": True, "qseed": 28, "print": False, "rescale_copy": 2},
+         {"op": "call", "where": "part", "m": 6, "unl": False, "qseed": 29, "rescale_copy": 3}, {"op": "evaluate"}],
     ]
     # history with continued dimension-wise refinement: everything evaluated before must be re-evaluated against the refined estimators
     refine_seq = [{"op": "call", "where": "in", "m": 8, "unl": False, "qseed": 31}, {"op": "test", "where": "part", "m": 8, "unl": True, "qseed": 32, "print": False},
